@@ -405,7 +405,7 @@ func (g *gen) child(sp childSpec, w *worldSpec) []byte {
 	a := &asm{}
 	g.decimalsPrologue(a)
 	for i := 0; i < sp.sstores; i++ {
-		a.pushU(uint64(0x51+i)).pushU(uint64(2+i)).op(evm.SSTORE)
+		a.pushU(uint64(0x51 + i)).pushU(uint64(2 + i)).op(evm.SSTORE)
 	}
 	if sp.log {
 		a.pushU(0xc1d).pushU(0).pushU(0).op(evm.LOG1)
